@@ -64,6 +64,26 @@ theorem pop_removes_named (c c' : Cont) (hc : Coherent c) (k : Key) (i : Nat) (h
   rintro j ⟨p, hp, rfl⟩ hne
   exact ⟨p, ⟨hp, hne⟩, rfl⟩
 
+/-- `update_avp(name, value)` replaces the object the name refers to — found by identity, not by
+    equal contents — at its own position; every other position keeps its object, and only names of
+    the replaced object are rebound -/
+theorem update_avp_targets_named (c c' : Cont) (k : Key) (i : Nat) (o : Obj) (hk : c.names.lookup k = some i)
+    (h : updateAvp c k o = .ok c') :
+    ∃ idx old, c.avps[idx]? = some old ∧ old.id = i ∧ c'.avps = c.avps.set idx o ∧ c'.names = rebind c.names i o.id := by
+  unfold updateAvp at h
+  rw [hk] at h
+  simp only at h
+  split at h; · cases h
+  rename_i idx hidx
+  obtain ⟨hlt, hp, _⟩ := List.findIdx?_eq_some_iff_getElem.mp hidx
+  have hget : c.avps[idx]? = some c.avps[idx] := List.getElem?_eq_getElem hlt
+  unfold setItem at h
+  rw [hget] at h
+  simp only [Except.ok.injEq] at h
+  subst h
+  have hid : c.avps[idx].id = i := by simpa using hp
+  exact ⟨idx, c.avps[idx], hget, hid, rfl, by simp [refresh, hid]⟩
+
 -- non-vacuity: two equal-sized objects of the same class, pop the SECOND one, append a third
 def a1 : Obj := ⟨1, "origin_host_avp", 16⟩
 def a2 : Obj := ⟨2, "origin_host_avp", 16⟩
